@@ -234,7 +234,9 @@ def line_wrap_by_sentence(
 
         if is_markdown and markdown_first_line_is_rule(lines):
             # Wrap again so that the escaped word is laid out with its real width.
-            return line_wrapper(markdown_escape_first_word(text), initial_indent, subsequent_indent)
+            escaped_text = markdown_escape_first_word(text)
+            if escaped_text != text:
+                return line_wrapper(escaped_text, initial_indent, subsequent_indent)
 
         # Now insert the indents and assemble the paragraph.
         if initial_indent and len(lines) > 0:
